@@ -6,7 +6,8 @@ import re
 from typing import Dict, List, Optional, Set, Tuple
 
 from ..core import AnalysisError, RuleSpec
-from ..pymodel import call_name
+from ..pymodel import PyModel, call_name
+from .. import astq
 from ..prov import Resolver
 from . import c19
 
@@ -33,105 +34,137 @@ def _chain_methods(e: ast.AST) -> Tuple[str, List[str]]:
     return ast.unparse(e), list(reversed(ms))
 
 
+MERGING = ("lower", "upper", "casefold", "strip", "title", "capitalize", "swapcase")
+
+
 def r1_counter_key(ctx, rep):
+    """Decided on the event trace of NameSelector.get_name with its helper methods inlined: which expressions index the
+    two levels of the ~N counter table, which name-merging steps the stem goes through, and how symbols are replaced."""
     py = ctx.py
     fn = py.func("NameSelector.get_name")
-    # counter accesses: self._counts[NS][KEY], or alias = self._counts.setdefault(NS, {}) ; alias[KEY]
-    keys: Set[str] = set()
+    ev = astq.trace(fn, astq.class_method_resolver(py, "NameSelector", "sourceform"))
+    idx = {id(e): i for i, e in enumerate(ev)}
+
+    def origin(txt: str, before: int, depth: int = 0) -> str:
+        """replace a local name by the text of the value it holds (latest assignment before the event)"""
+        if depth > 4 or not re.fullmatch(r"[A-Za-z_]\w*", txt):
+            return txt
+        for e in reversed(ev[:before]):
+            if e.kind == "assign" and e.target == txt and e.value is not None and not any(
+                    isinstance(n, ast.Name) and n.id == txt for n in ast.walk(e.value)):
+                return origin(e.text(e.value), idx[id(e)], depth + 1)
+        return txt
+
     nss: Set[str] = set()
-    aliases: Set[str] = set()
-    for n in ast.walk(fn):
-        if isinstance(n, ast.Assign) and len(n.targets) == 1 and isinstance(n.targets[0], ast.Name):
-            v = n.value
-            if isinstance(v, ast.Call) and call_name(v) in ("self._counts.setdefault", "self._counts.get") and v.args:
-                nss.add(ast.unparse(v.args[0]))
-                aliases.add(n.targets[0].id)
-            elif isinstance(v, ast.Subscript) and ast.unparse(v.value) == "self._counts":
-                nss.add(ast.unparse(v.slice))
-                aliases.add(n.targets[0].id)
+    keys: Set[str] = set()
+    aliases: Dict[str, int] = {}
+    for e in ev:
+        i = idx[id(e)]
+        nodes = [e.node] if e.kind != "assign" else [e.node]
+        for root in nodes:
+            for n in ast.walk(root):
+                # first level
+                if isinstance(n, ast.Subscript) and e.text(n.value) == "self._counts":
+                    nss.add(origin(e.text(n.slice), i))
+                if isinstance(n, ast.Call) and isinstance(n.func, ast.Attribute) and e.text(n.func.value) == "self._counts" \
+                        and n.func.attr in ("setdefault", "get") and n.args:
+                    nss.add(origin(e.text(n.args[0]), i))
+                if isinstance(n, ast.Compare) and len(n.ops) == 1 and isinstance(n.ops[0], (ast.In, ast.NotIn)) and \
+                        e.text(n.comparators[0]) == "self._counts":
+                    nss.add(origin(e.text(n.left), i))
+        if e.kind == "assign" and e.value is not None and e.target and re.fullmatch(r"[A-Za-z_]\w*", e.target):
+            vt = e.text(e.value)
+            if re.match(r"self\._counts(\[|\.setdefault\(|\.get\()", vt):
+                aliases[e.target] = i
 
-    def is_table(e: ast.AST) -> bool:
-        if isinstance(e, ast.Subscript) and ast.unparse(e.value) == "self._counts":
-            nss.add(ast.unparse(e.slice))
-            return True
-        return isinstance(e, ast.Name) and e.id in aliases
-
-    for n in ast.walk(fn):
-        if isinstance(n, ast.Subscript) and is_table(n.value):
-            keys.add(ast.unparse(n.slice))
-        if isinstance(n, ast.Compare) and len(n.ops) == 1 and isinstance(n.ops[0], (ast.In, ast.NotIn)):
-            if is_table(n.comparators[0]):
-                keys.add(ast.unparse(n.left))
-            elif ast.unparse(n.comparators[0]) == "self._counts":
-                nss.add(ast.unparse(n.left))
-        if isinstance(n, ast.Call) and isinstance(n.func, ast.Attribute) and n.func.attr in ("get", "setdefault") \
-                and is_table(n.func.value) and n.args:
-            keys.add(ast.unparse(n.args[0]))
+    def is_table(n: ast.AST, e) -> bool:
+        t = e.text(n)
+        return bool(re.fullmatch(r"self\._counts\[.*\]", t)) and t.count("[") >= 1 and not t.endswith("]]") or \
+            (isinstance(n, ast.Name) and n.id in aliases)
+    for e in ev:
+        i = idx[id(e)]
+        for n in ast.walk(e.node):
+            if isinstance(n, ast.Subscript) and is_table(n.value, e):
+                keys.add(origin(e.text(n.slice), i))
+            if isinstance(n, ast.Call) and isinstance(n.func, ast.Attribute) and n.func.attr in ("get", "setdefault") \
+                    and is_table(n.func.value, e) and n.args:
+                keys.add(origin(e.text(n.args[0]), i))
+            if isinstance(n, ast.Compare) and len(n.ops) == 1 and isinstance(n.ops[0], (ast.In, ast.NotIn)) and is_table(n.comparators[0], e):
+                keys.add(origin(e.text(n.left), i))
     if not keys or not nss:
         raise AnalysisError("NameSelector.get_name: counter table accesses not understood")
-    # resolve local names used as key/namespace to their definitions
-    defs: Dict[str, ast.AST] = {}
-    for n in ast.walk(fn):
-        if isinstance(n, ast.Assign) and len(n.targets) == 1 and isinstance(n.targets[0], ast.Name):
-            defs.setdefault(n.targets[0].id, n.value)
-
-    def expand(txt: str) -> str:
-        return ast.unparse(defs[txt]) if txt in defs else txt
-    keys_x = {expand(k) for k in keys}
-    nss_x = {expand(k) for k in nss}
-    ok = len(nss_x) == 1 and next(iter(nss_x)) == "item.get_dir()"
+    ok = nss == {"item.get_dir()"}
     rep.ob("counter namespace", ok,
            "the ~N counters are namespaced by item.get_dir(), the directory the page is written to" if ok else
-           f"counter namespace is {sorted(nss_x)}: entities written into one directory (module/submodule) may be "
+           f"counter namespace is {sorted(nss)}: entities written into one directory (module/submodule) may be "
            f"counted separately and receive the same stem", py.nloc(fn))
-    # the stem
-    stem_def = None
-    for n in ast.walk(fn):
-        if isinstance(n, ast.Assign) and len(n.targets) == 1 and isinstance(n.targets[0], ast.Name) \
-                and n.targets[0].id == "name" and "item.name" in ast.unparse(n.value):
-            stem_def = n
-            break
-    if stem_def is None:
-        raise AnalysisError("NameSelector.get_name: stem definition (`name = ...item.name...`) not found")
-    base, stem_ops = _chain_methods(stem_def.value)
-    if base != "item.name" and not (isinstance(stem_def.value, ast.Call) and "item.name" in ast.unparse(stem_def.value)):
-        raise AnalysisError("stem is not derived from item.name by method calls")
-    merging = [m for m in stem_ops if m in ("lower", "upper", "casefold", "strip", "title")]
-    uses_resub = "re.sub" in ast.unparse(stem_def.value)
-    for k in sorted(keys_x):
-        kb, kops = _chain_methods(ast.parse(k, mode="eval").body)
-        missing = [m for m in merging if m not in kops]
-        ok = not missing and (kb == "item.name")
-        rep.ob(f"counter key `{k}` vs stem `{ast.unparse(stem_def.value)}`", ok,
+    # the stem: what is stored for the item / returned, traced back to item.name
+    stored = [e for e in ev if e.kind == "assign" and e.target and e.target.startswith("self._items[") and e.value is not None]
+    if not stored:
+        raise AnalysisError("NameSelector.get_name: the identifier is not stored in self._items")
+    closure: List[str] = []
+    seen: Set[str] = set()
+    todo = [stored[-1].text(stored[-1].value)]
+    while todo:
+        t = todo.pop()
+        if t in seen:
+            continue
+        seen.add(t)
+        closure.append(t)
+        for nm in set(re.findall(r"\b[A-Za-z_]\w*\b", t)):
+            for e in ev:
+                if e.kind == "assign" and e.target == nm and e.value is not None:
+                    todo.append(e.text(e.value))
+                if e.kind == "loop" and nm in (e.target or ""):
+                    todo.append(e.text(e.value))
+    if not any("item.name" in t for t in closure):
+        raise AnalysisError("NameSelector.get_name: the stored identifier is not derived from item.name")
+    stem_ops = sorted({m for t in closure for m in re.findall(r"\.(\w+)\(", t) if m in MERGING})
+    uses_resub = any(re.search(r"\bre\.sub\(|\.sub\(", t) for t in closure)
+    for k in sorted(keys):
+        kops = [m for m in re.findall(r"\.(\w+)\(", k) if m in MERGING]
+        missing = [m for m in stem_ops if m not in kops]
+        ok = not missing and k.startswith("item.name")
+        rep.ob(f"counter key `{k}` vs stem", ok,
                ("every name-merging step of the stem is applied to the counter key as well" if ok else
-                f"the stem applies {merging} to item.name but the collision counter is keyed by `{k}`: names that "
+                f"the stem applies {stem_ops} to item.name but the collision counter is keyed by `{k}`: names that "
                 f"differ only by that step (e.g. `Init` / `init`) each count as first and get the same file"),
                py.nloc(fn))
     # symbol replacement must be an injective literal table
-    tables = [n for n in ast.walk(fn) if isinstance(n, ast.Dict) and n.keys and all(
-        isinstance(k, ast.Constant) and isinstance(k.value, str) for k in n.keys)]
-    if uses_resub or not tables:
+    env = {**py.module_env("sourceform")}
+    cenv = {k: py.const_value("NameSelector", k) for k in py.classes["NameSelector"].class_attrs}
+    table = None
+    tnode = None
+    for e in ev:
+        cand = []
+        if e.kind == "loop" and e.value is not None:
+            cand.append(e.value.func.value if isinstance(e.value, ast.Call) and isinstance(e.value.func, ast.Attribute)
+                        and e.value.func.attr == "items" else e.value)
+        for n in ast.walk(e.node):
+            if isinstance(n, ast.Call) and isinstance(n.func, ast.Attribute) and n.func.attr == "translate" and n.args:
+                cand.append(n.args[0])
+        for c in cand:
+            v = py.eval_const(c, env)
+            if v is PyModel._UNKNOWN and isinstance(c, ast.Attribute) and isinstance(c.value, ast.Name) and c.value.id in ("self", "cls", "NameSelector"):
+                v = cenv.get(c.attr, PyModel._UNKNOWN)
+            if isinstance(v, dict) and v:
+                table = {(chr(k) if isinstance(k, int) else k): x for k, x in v.items()}
+                tnode = c
+    if uses_resub or table is None:
         rep.ob("symbol replacement injective", False,
                "symbols are no longer replaced through a one-to-one table (regex substitution with a common "
-               "replacement merges e.g. operator(<) and operator(>))", py.nloc(stem_def))
-        rep.ob("stem is path-safe", "/" in ast.unparse(stem_def.value), "'/' is still removed from the stem",
-               py.nloc(stem_def))
-        rep.ob("no lossy regex on the stem", False, "re.sub applied to the stem", py.nloc(stem_def))
+               "replacement merges e.g. operator(<) and operator(>))", py.nloc(stored[-1].node))
+        rep.ob("stem is path-safe", any("/" in t for t in closure), "'/' is still removed from the stem", py.nloc(stored[-1].node))
+        rep.ob("no lossy regex on the stem", False, "re.sub applied to the stem", py.nloc(stored[-1].node))
     else:
-        vals = [v.value for v in tables[0].values if isinstance(v, ast.Constant)]
-        ks = [k.value for k in tables[0].keys]
-        ok = len(set(vals)) == len(vals) == len(ks) and all(
-            isinstance(v, str) and v and (v.isupper() or v.isalpha()) for v in vals)
+        vals, ks = list(table.values()), list(table.keys())
+        ok = len(set(vals)) == len(vals) == len(ks) and all(isinstance(v, str) and v and (v.isupper() or v.isalpha()) for v in vals)
         rep.ob("symbol replacement injective", ok,
-               f"replacement table {dict(zip(ks, vals))} has pairwise distinct values" if ok else
-               f"replacement table {dict(zip(ks, vals))} maps different symbols to one stem", py.nloc(tables[0]))
+               f"replacement table {table} has pairwise distinct values" if ok else
+               f"replacement table {table} maps different symbols to one stem", py.nloc(tnode))
         rep.ob("stem is path-safe", "/" in ks, "'/' is replaced, so the stem cannot contain a path separator"
-               if "/" in ks else "'/' is no longer replaced: operator(/) would create a sub-directory",
-               py.nloc(tables[0]))
-        # other re.sub on name later?
-        later = [c for c in py.walk_calls(fn) if call_name(c) == "re.sub"]
-        rep.ob("no lossy regex on the stem", not later, "stem is only changed by the literal table" if not later else
-               "re.sub applied to the stem", py.nloc(later[0]) if later else py.nloc(fn))
+               if "/" in ks else "'/' is no longer replaced: operator(/) would create a sub-directory", py.nloc(tnode))
+        rep.ob("no lossy regex on the stem", True, "stem is only changed by the literal table", py.nloc(fn))
 
 
 def r2_write_targets_use_ident(ctx, rep):
@@ -163,8 +196,13 @@ def r2_write_targets_use_ident(ctx, rep):
                             rep.ob(f"{cls}.{prop}", True, "page file name built from the unique ident / page path",
                                    py.nloc(ci.methods[prop]))
             continue
+        loop_vars = {n.target.id for n in ast.walk(fn) if isinstance(n, (ast.For, ast.comprehension)) and isinstance(n.target, ast.Name)} \
+            if fn is not None else set()
         for a in comps:
             owner = ast.unparse(a.value)
+            roots = {x.id for x in ast.walk(a.value) if isinstance(x, ast.Name)}
+            if a.attr in ("name", "filename") and not (roots & loop_vars):
+                continue    # a single configured file (not one of many entities written side by side)
             if a.attr == "ident":
                 rep.ob(f"{py.qualname(fn)} {api} dest={txt[:60]}", True, "keyed by ident", py.nloc(c))
             elif a.attr in ("name", "filename"):
@@ -173,18 +211,57 @@ def r2_write_targets_use_ident(ctx, rep):
                        f"entities: two items with the same name overwrite each other's file", py.nloc(c))
 
 
+PH = "\x01Id/<*>\x02"       # placeholder for the unique identifier: any case folding / symbol replacement changes it
+
+
+class _StripQuote(ast.NodeTransformer):
+    """urllib quote() is injective on identifiers: look through it"""
+    def visit_Call(self, n):
+        self.generic_visit(n)
+        if call_name(n).split(".")[-1] in ("quote", "quote_plus", "str") and len(n.args) == 1 and not n.keywords:
+            return n.args[0]
+        return n
+
+
+def symbolic_name(py, fn, prefix: str, depth: int = 0) -> List[object]:
+    """values (with placeholders) of the returned page-name expressions of fn; PyModel._UNKNOWN entries are kept"""
+    import copy
+    out = []
+    for e in astq.trace(fn):
+        if e.kind != "return" or e.value is None:
+            continue
+        env: Dict[str, object] = {"__by_text__": True, f"{prefix}.ident": PH, f"{prefix}.obj": "{obj}",
+                                  f"{prefix}.get_dir()": "{dir}", f"{prefix}.external_url": "{external}"}
+        for n in ast.walk(e.value):
+            if isinstance(n, ast.Name):
+                for _, v in astq.assignments(fn, n.id):
+                    if v is not None and "get_dir" in ast.unparse(v):
+                        env[n.id] = "{dir}"
+            if isinstance(n, ast.Attribute) and ast.unparse(n.value) == prefix and n.attr not in ("ident", "obj", "external_url") \
+                    and depth < 2:
+                r = py.resolve_method("FortranBase", n.attr)
+                if r is not None and n.attr in py.classes[r[0]].properties:
+                    vals = [v for v in symbolic_name(py, r[1], "self", depth + 1)]
+                    if len(vals) == 1:
+                        env[ast.unparse(n)] = vals[0]
+        val = py.eval_const(_StripQuote().visit(copy.deepcopy(e.value)), env)
+        out.append((val, e))
+    return out
+
+
 def r3_anchor_and_registry(ctx, rep):
     py = ctx.py
     a = py.func("FortranBase.anchor")
-    t = ast.unparse(a)
-    ok = "quote(self.ident)" in t and "self.obj" in t
+    vals = [v for v, _ in symbolic_name(py, a, "self")]
+    ok = vals == ["{obj}-" + PH] and any(call_name(c).split(".")[-1] == "quote" for c in py.walk_calls(a))
     rep.ob("anchor = obj-quote(ident)", ok, "anchors are prefixed with the entity kind and quote the unique ident"
-           if ok else "anchor is no longer built from obj and quote(ident)", py.nloc(a))
+           if ok else f"anchor is no longer built from obj and quote(ident) ({vals})", py.nloc(a))
     i = py.func("FortranBase.ident")
-    ok = "namelist.get_name(self)" in ast.unparse(i)
+    ok = any(call_name(c).endswith(".get_name") and c.args and ast.unparse(c.args[0]) == "self" for r in astq.returns(i) for c in ast.walk(r)
+             if isinstance(c, ast.Call))
     rep.ob("ident comes from the registry", ok, "", py.nloc(i))
     # one module-level registry
-    regs = [st for st in py.modules["sourceform"].body if isinstance(st, ast.Assign)
+    regs = [st for st in py.modules["sourceform"].body if isinstance(st, (ast.Assign, ast.AnnAssign))
             and isinstance(st.value, ast.Call) and call_name(st.value) == "NameSelector"]
     others = [c for t in py.modules.values() for c in ast.walk(t)
               if isinstance(c, ast.Call) and call_name(c).split(".")[-1] == "NameSelector"]
@@ -193,8 +270,12 @@ def r3_anchor_and_registry(ctx, rep):
            f"{len(others)} NameSelector instances: numbering is no longer global", py.nloc(regs[0]) if regs else "ford/sourceform.py")
     # memo: an item asked twice gets the same name
     fn = py.func("NameSelector.get_name")
-    t = ast.unparse(fn)
-    ok = "if item in self._items" in t and "self._items[item] = name" in t
+    ev = astq.trace(fn, astq.class_method_resolver(py, "NameSelector", "sourceform"))
+    memo_ret = [e for e in ev if e.kind == "return" and e.value is not None and e.text(e.value) == "self._items[item]"
+                and any(c == "item in self._items" for c in e.cond_texts())]
+    store = [e for e in ev if e.kind == "assign" and e.target == "self._items[item]"]
+    last_ret = [e for e in ev if e.kind == "return" and e.value is not None and e not in memo_ret]
+    ok = bool(memo_ret) and bool(store) and bool(last_ret) and all(e.text(e.value) == store[-1].text(store[-1].value) for e in last_ret)
     rep.ob("names are memoised per item", ok, "", py.nloc(fn))
 
 
@@ -221,68 +302,74 @@ LOSSY = ("re.sub", "replace", "translate", "lower", "upper", "strip", "casefold"
 
 
 def r5_no_transformation_after_uniqueness(ctx, rep):
-    """the unique identifier is used verbatim wherever a file name or URL is composed."""
+    """the unique identifier is used verbatim wherever a file name or URL is composed: the composing expressions are
+    evaluated symbolically with a placeholder for the identifier that any case folding / replacement would change."""
     py = ctx.py
 
-    def lossy_calls(fn) -> List[str]:
+    def lossy_in(fn) -> List[str]:
         out = []
         for c in py.walk_calls(fn):
             n = call_name(c)
-            if n in LOSSY or n.split(".")[-1] in LOSSY:
+            if (n in LOSSY or n.split(".")[-1] in LOSSY) and "ident" in ast.unparse(c):
                 out.append(n)
-        for s in ast.walk(fn):
-            if isinstance(s, ast.Subscript) and isinstance(s.slice, ast.Slice) and "ident" in ast.unparse(s.value):
+        for s2 in ast.walk(fn):
+            if isinstance(s2, ast.Subscript) and isinstance(s2.slice, ast.Slice) and "ident" in ast.unparse(s2.value):
                 out.append("slice")
         return out
 
-    def html_exprs(fn):
-        """the returned expressions that compose the page file name: for get_url the return under
-        `if loc := self.get_dir()`, otherwise every returned f-string / concatenation / attribute."""
-        out = []
-        for n in ast.walk(fn):
-            if isinstance(n, ast.If) and "self.get_dir()" in ast.unparse(n.test):
-                return [r.value for r in n.body if isinstance(r, ast.Return) and r.value is not None]
-        for n in ast.walk(fn):
-            if isinstance(n, ast.Return) and isinstance(n.value, (ast.JoinedStr, ast.BinOp, ast.Attribute)):
-                out.append(n.value)
-        return out
-
-    def check_site(label: str, fn, obj_prefix: str, exprs=None):
-        exprs = exprs if exprs is not None else html_exprs(fn)
-        if not exprs:
-            raise AnalysisError(f"{label}: no '<stem>.html' composition found")
-        for e in exprs:
-            src = ast.unparse(e)
-            attrs = [a for a in re.findall(re.escape(obj_prefix) + r"\.(\w+)", src) if a not in ("obj", "get_dir")]
-            bad_here = [call_name(c) for c in py.walk_calls(e) if call_name(c).split(".")[-1] in LOSSY]
-            if not attrs:
-                rep.ob(f"{label}: `{src[:50]}` stem", False, "the stem is not taken from the entity's ident", py.nloc(fn))
-            for a in attrs:
-                if a == "ident":
-                    rep.ob(f"{label} uses ident verbatim", not bad_here, f"`{src[:60]}`", py.nloc(fn))
-                    continue
-                r = py.resolve_method("FortranBase", a)
-                if r is None:
-                    rep.ob(f"{label} stem attribute `{a}`", False, f"`{a}` is not the unique ident", py.nloc(fn))
-                    continue
-                body = ast.unparse(r[1])
-                bad = lossy_calls(r[1])
-                ok = "self.ident" in body and not bad
-                rep.ob(f"{label} stem attribute `{a}`", ok,
-                       f"`{a}` returns the ident unchanged" if ok else
-                       f"the page name comes from `{a}`, which applies {bad or 'something other than ident'} after NameSelector "
-                       f"made the identifier unique: different identifiers (operator(+), operator(==)) collapse to one file "
-                       f"name and one page silently overwrites the other", py.nloc(r[1]))
+    def check_site(label: str, fn, prefix: str, want: str, select=None):
+        vals = symbolic_name(py, fn, prefix)
+        if select is not None:
+            vals = [(v, e) for v, e in vals if select(e)]
+        vals = [(v, e) for v, e in vals if not (isinstance(v, str) and v in ("{external}",)) and v is not None]
+        if not vals:
+            raise AnalysisError(f"{label}: no page-name composition found")
+        for v, e in vals:
+            src = ast.unparse(e.value)
+            if v is PyModel._UNKNOWN:
+                # which attribute supplies the stem?
+                attrs = [a for a in re.findall(re.escape(prefix) + r"\.(\w+)", src) if a not in ("obj", "get_dir", "ident")]
+                bad = lossy_in(fn)
+                for a in attrs:
+                    r = py.resolve_method("FortranBase", a)
+                    if r is not None:
+                        bad += lossy_in(r[1])
+                        rep.ob(f"{label} stem attribute `{a}`", False,
+                               f"the page name comes from `{a}`, which applies {bad or 'something other than ident'} after NameSelector "
+                               f"made the identifier unique: different identifiers (operator(+), operator(==)) collapse to one file "
+                               f"name and one page silently overwrites the other", py.nloc(r[1]))
+                        break
+                else:
+                    if bad:
+                        rep.ob(f"{label} uses ident verbatim", False, f"`{src[:60]}` applies {bad} to the identifier", py.nloc(fn))
+                    else:
+                        raise AnalysisError(f"{label}: composition `{src[:60]}` not understood")
+                continue
+            ok = v == want
+            rep.ob(f"{label} uses ident verbatim", ok,
+                   f"`{src[:60]}`" if ok else
+                   f"`{src[:60]}` composes {str(v).replace(PH, '<ident>')!r}, expected {want.replace(PH, '<ident>')!r}: the unique "
+                   f"identifier is altered (or not used) after NameSelector made it unique", py.nloc(fn))
 
     gu = py.func("FortranBase.get_url")
-    check_site("FortranBase.get_url", gu, "self")
-    op = py.func("DocPage.object_page")
-    check_site("DocPage.object_page", op, "self.obj")
-    an = py.func("FortranBase.anchor")
-    check_site("FortranBase.anchor", an, "self", [n for n in ast.walk(an) if isinstance(n, ast.JoinedStr)])
+
+    def under_dir(e) -> bool:
+        for c in e.cond_texts():
+            if c.startswith("not "):
+                continue
+            if "get_dir" in c:
+                return True
+            for nm in re.findall(r"\b[A-Za-z_]\w*\b", c):
+                if any("get_dir" in ast.unparse(v) for _, v in astq.assignments(gu, nm) if v is not None):
+                    return True
+        return False
+    check_site("FortranBase.get_url", gu, "self", "{dir}/" + PH + ".html", select=under_dir)
+    check_site("DocPage.object_page", py.func("DocPage.object_page"), "self.obj", PH + ".html")
+    check_site("FortranBase.anchor", py.func("FortranBase.anchor"), "self", "{obj}-" + PH)
     # several procedures of one *generic* interface must keep their own identifiers
     ip = py.func("FortranProcedure.is_interface_procedure")
-    ok = "not self.parent.generic" in ast.unparse(ip) and "isinstance(self.parent, FortranInterface)" in ast.unparse(ip)
+    rtxt = " ".join(ast.unparse(r) for r in astq.returns(ip))
+    ok = "not self.parent.generic" in rtxt and "isinstance(self.parent, FortranInterface)" in rtxt
     rep.ob("only the single procedure of a non-generic interface borrows the interface's identifier", ok,
            "ident/get_dir are redirected only for non-generic interface blocks (one procedure per block)" if ok else
            "is_interface_procedure no longer excludes generic interfaces: every specific procedure written inside a named "
